@@ -82,6 +82,9 @@ type Account struct {
 
 func (a *Account) String() string { return a.Addr.String() }
 
+// InPool reports whether the account has a transaction waiting in the mempool.
+func (a *Account) InPool() bool { return a.inPool }
+
 // HeaderRec is ground truth about a committed block: what the chain really produced.
 type HeaderRec struct {
 	Header   cmttypes.Header
@@ -97,6 +100,9 @@ type TxSpec struct {
 	Gas    uint64
 	Label  string // free text for logs/samples
 	Tag    int64  // op tag that produced it (for attribution)
+	// Grantors are accounts that authorised the signer for this transaction (authz); they
+	// count as having consented to debits.
+	Grantors []string
 	// filled when built
 	Bytes []byte
 	Hash  string
@@ -126,6 +132,7 @@ type ChainConfig struct {
 	AllowedClients          []string // 02-client param; nil = default
 	GovVotingPeriod         time.Duration
 	BlockMaxGas             int64
+	Clock                   *Clock `json:"-"` // shared setup clock (optional)
 }
 
 // Chain is one simulated chain running the real application.
@@ -468,7 +475,26 @@ func (c *Chain) Relayer() *Account {
 func (c *Chain) ProduceBlock(dt time.Duration) []*TxResult {
 	txs := c.Mempool
 	c.Mempool = nil
-	return c.Block(c.LastTime.Add(dt), txs)
+	return c.Block(c.nextTime(dt), txs)
+}
+
+// Clock is a wall clock shared by the chains of one world while the world is being set up, so
+// that chains built one after the other do not drift apart (light clients refuse headers from
+// the future).
+type Clock struct{ Now time.Time }
+
+// nextTime is the time of a block produced dt after "now": the later of the chain's own last
+// block and the shared setup clock (if any).
+func (c *Chain) nextTime(dt time.Duration) time.Time {
+	base := c.LastTime
+	if c.Cfg.Clock != nil && c.Cfg.Clock.Now.After(base) {
+		base = c.Cfg.Clock.Now
+	}
+	t := base.Add(dt)
+	if c.Cfg.Clock != nil {
+		c.Cfg.Clock.Now = t
+	}
+	return t
 }
 
 // Deliver commits a block holding exactly this one transaction and returns its result.
@@ -477,7 +503,7 @@ func (c *Chain) Deliver(dt time.Duration, signer *Account, gas uint64, msgs ...s
 		Failf("Deliver with non-empty mempool on %s", c.ID)
 	}
 	tx := &TxSpec{Msgs: msgs, Signer: signer, Gas: gas}
-	return c.Block(c.LastTime.Add(dt), []*TxSpec{tx})[0]
+	return c.Block(c.nextTime(dt), []*TxSpec{tx})[0]
 }
 
 // Simulate runs the tx through baseapp's simulate mode against the latest committed state.
